@@ -58,6 +58,8 @@ extern int mpt_library_detach(MPT_STRUCT(libhandle) **handle)
 	}
 	if ((count = lh->_ref._val)
 	    && __mpt_library_proxy_unref(&lh->_ref)) {
+		/* reference is given up: handle must not refer to library any more */
+		*handle = 0;
 		return 0;
 	}
 	if (lh->addr && dlclose(lh->addr) < 0) {
